@@ -130,7 +130,7 @@ def run_cases(pid, case_terms, header="", shard=40, timeout=900):
         fn = os.path.join(wdir, f"cases_{k}.v")
         with open(fn, "w") as f:
             f.write("From Coq Require Import ZArith QArith Qcanon List.\nImport ListNotations.\n")
-            f.write("From CK Require Import Base Scalar Tensor Pexpr Exec Ops Checks RG Init Ctx Gen Fold FoldCheck.\n")
+            f.write("From CK Require Import Base Scalar Tensor Pexpr Exec Ops Checks RG Init Ctx Gen Fold FoldCheck PShapes.\n")
             f.write(header + "\n")
             for j, t in enumerate(sh_terms):
                 f.write(f"Definition case_{j} : list nat := {t}.\n")
